@@ -8,9 +8,9 @@ for p in $PATCHES; do
   n=$(basename $p .patch)
   grep -q "^$n " mutants/STATUS.txt 2>/dev/null && continue
   d=$(mktemp -d /tmp/mt-XXXXXX)
-  rsync -a --exclude .git /repo/ $d/
+  git -C /repo archive HEAD | tar -x -C $d
   if ! (cd $d && patch -p1 -s < /verif/$p); then echo "$n NOAPPLY" >> mutants/STATUS.txt; rm -rf $d; continue; fi
-  if (cd $d && go build ./... && go test -vet=off -count=1 -timeout 20m ./... > $d/test.log 2>&1); then r=PASS; else r="FAIL $(grep -E '^(--- FAIL|FAIL|panic)' $d/test.log | head -3 | tr '\n' ' ')"; fi
+  if (cd $d && go build ./... && go test -vet=off -count=1 -timeout 5m ./... > $d/test.log 2>&1); then r=PASS; else r="FAIL $(grep -E '^(--- FAIL|FAIL|panic)' $d/test.log | head -3 | tr '\n' ' ')"; fi
   echo "$n $r" >> mutants/STATUS.txt
   rm -rf $d
 done
